@@ -542,10 +542,9 @@ func (rt *runtime) convertCallParameter(v Value, t reflect.Type) (reflect.Value,
 					}
 				}
 
-				rv, err := v.Call(nullValue, l...)
-				if err != nil {
-					panic(err)
-				}
+				// Call without converting a JavaScript exception into a Go error: it
+				// must stay an exception that the calling script's try/catch can see.
+				rv := v.call(rt, nullValue, l...)
 
 				if t.NumOut() == 0 {
 					return nil
